@@ -2,7 +2,7 @@
    Full-strength statement: C01_statement (Cluster/Statements.v). Proved so far: the theorems below; what is
    not yet proved is decided on every run by the lock-step co-simulation (model = implementation on every
    explored schedule) together with the monitors run on the implementation's own observations. *)
-From RaftV Require Import Cluster.Statements Proofs.RVSpec Proofs.AESpec.
+From RaftV Require Import Cluster.Statements Proofs.RVSpec Proofs.AESpec Proofs.CommitSpec.
 Open Scope N_scope.
 
 (* RequestVote, every voter state x every request *)
@@ -21,3 +21,17 @@ Print Assumptions C01_vote_refused_if_voted_other.
 Theorem C01_step_down_frame : forall now n l t, vol (become_follower now n l t) = vol n.
 Proof. exact vol_become_follower. Qed.
 Print Assumptions C01_step_down_frame.
+
+(* One iteration of the apply loop, for every node state: the applied index advances by exactly one; the state machine
+   receives exactly the payload of the log entry at that index - nothing for a no-op or configuration entry - and the
+   apply history records that entry's own index, term and payload. *)
+Theorem C01_apply_one_entry : forall now n e,
+  log_get (n_log n) (n_applied n + 1) = Some e ->
+  let n' := lp_apply_one now n in
+  n_applied n' = n_applied n + 1 /\
+  match e_kind e with
+  | KOp p => n_fsm n' = n_fsm n ++ [p] /\ n_applies n' = n_applies n ++ [(e_index e, e_term e, p)]
+  | _ => n_fsm n' = n_fsm n /\ n_applies n' = n_applies n
+  end.
+Proof. exact lp_apply_one_spec. Qed.
+Print Assumptions C01_apply_one_entry.
